@@ -42,7 +42,7 @@ COMPONENTS = {
     'real': ['demux.py __main__ (argument handling, library/lane detection, -n budget across lanes, --norejects, --scsepf, -fh, log file) re-executed with runpy in a forked child for ~1% (quick) / 4% (thorough) of the cases', 'DemultiplexingStrategyLoader.demultiplex', 'all registered strategy classes', 'BarcodeParser', 'FastqIterator', 'FastqHandle', 'HandleLimiter', 'gzip'],
     'stub': ['recording proxies around targetFile / rejectHandle / FastqIterator.__next__ (delegating)', 'SimFS fd budget + SimClock behind HandleLimiter in per-cell mode'],
 }
-REQUIRED_PROBES = ['cli_run', 'cli_multi_lane', 'cli_cutoff_hit', 'accepted_and_rejected_in_one_run', 'cutoff_hit', 'per_cell_output', 'fd_budget_fault_fired', 'no_reject_handle', 'high_phred_in_umi', 'unknown_index']
+REQUIRED_PROBES = ['cli_rerun_into_existing_output', 'cli_run', 'cli_multi_lane', 'cli_cutoff_hit', 'accepted_and_rejected_in_one_run', 'cutoff_hit', 'per_cell_output', 'fd_budget_fault_fired', 'no_reject_handle', 'high_phred_in_umi', 'unknown_index']
 
 _LOADERS = {}
 _INDEXES = None
@@ -212,7 +212,9 @@ def generate(seed, tier):
         nl = st.schedule.choice([1, 2, 2, 3])
         cuts = sorted(st.schedule.sample(range(1, n), min(nl - 1, max(0, n - 1)))) if n > 1 else []
         cli = {'lane_cuts': cuts, 'n': st.schedule.choice([None, None, 1, max(1, n // 2), n, n + 3]), 'norejects': st.schedule.random() < 0.3,
-               'scsepf': st.schedule.random() < 0.3, 'fh': st.schedule.choice([1, 2, 5, 500])}
+               'scsepf': st.schedule.random() < 0.3, 'fh': st.schedule.choice([1, 2, 5, 500]),
+               # state carried between runs: a trial run (-n small) or a pre-created folder, then the real run into the same -o
+               'prior': st.schedule.choice([None, None, 'trial-run', 'empty-folder'])}
     return {'params': params, 'workload': reads, 'cli': cli}
 
 
@@ -538,28 +540,39 @@ def _cli_layer(case, d, log, viol, probe):
         argv.append('--norejects')
     if c['scsepf']:
         argv.append('--scsepf')
-    rfd, wfd = os.pipe()
-    pid = os.fork()
-    if pid == 0:
+    def launch(av):
+        rfd, wfd = os.pipe()
+        pid = os.fork()
+        if pid == 0:
+            os.close(rfd)
+            try:
+                _cli_child(d, av, wfd)
+            finally:
+                os._exit(97)
+        os.close(wfd)
+        data = b''
+        while True:
+            b = os.read(rfd, 65536)
+            if not b:
+                break
+            data += b
         os.close(rfd)
-        try:
-            _cli_child(d, argv, wfd)
-        finally:
-            os._exit(97)
-    os.close(wfd)
-    data = b''
-    while True:
-        b = os.read(rfd, 65536)
-        if not b:
-            break
-        data += b
-    os.close(rfd)
-    os.waitpid(pid, 0)
-    res = json.loads(data.decode()) if data else {'exception': 'child died without a result'}
+        os.waitpid(pid, 0)
+        return json.loads(data.decode()) if data else {'exception': 'child died without a result'}
+
+    if c.get('prior') == 'trial-run':
+        # same output mode as the real run (a run with another layout legitimately leaves its own files behind)
+        launch(['demux.py'] + files + ['-o', out, '--y', '-use', p['strategy'], '-hd', str(p['hd']), '-n', '2', '-fh', str(c['fh'])] + (['--se'] if nm == 1 else [])
+               + (['--norejects'] if c['norejects'] else []) + (['--scsepf'] if c['scsepf'] else []))
+        probe('cli_rerun_into_existing_output')
+    elif c.get('prior') == 'empty-folder':
+        os.makedirs(os.path.join(out, 'LIBX'), exist_ok=True)
+        probe('cli_rerun_into_existing_output')
+    res = launch(argv)
     probe('cli_run')
     if len(bounds) > 2:
         probe('cli_multi_lane')
-    ctx = {'strategy': p['strategy'], 'mode': 'cli', 'argv': [a if not a.startswith(d) else os.path.basename(a) for a in argv[1:]]}
+    ctx = {'strategy': p['strategy'], 'mode': 'cli', 'prior': c.get('prior'), 'argv': [a if not a.startswith(d) else os.path.basename(a) for a in argv[1:]]}
 
     def V(cls, sig, **detail):
         detail.update(ctx)
